@@ -236,6 +236,14 @@ func Hash64(parts ...string) uint64 {
 func (r *Rec) NonTrivial(identity ...string) {
 	h := Hash64(identity...)
 	r.mu.Lock()
+	if _, seen := r.hashes[h]; !seen && len(r.R.Samples["non-trivial case"]) < r.perLabelSamples {
+		// every check shows at least a few of the cases it counted as non-trivial
+		t := strings.Join(identity, " | ")
+		if len(t) > 600 {
+			t = t[:600] + "…"
+		}
+		r.R.Samples["non-trivial case"] = append(r.R.Samples["non-trivial case"], t)
+	}
 	r.hashes[h] = struct{}{}
 	r.mu.Unlock()
 }
